@@ -175,6 +175,9 @@ def sym_int(b):
 def ob_units_regions(h):
     """get_min_number_hx with the two counters replaced by recorders: the regions are the stretches between consecutive rows where the
     balanced curves meet, with at least one row in between; the result is the sum of the members of every region minus one per region."""
+    from pvc.engine import ReplayMismatch
+    if not h.symbolic:
+        raise ReplayMismatch("modular obligation: the counters are recorders, no native replay")
     n = h.choice("rows", [3, 4])
     Hh, Hc = h.reals("Hh", n), h.reals("Hc", n)
     for i in range(n):
